@@ -166,6 +166,14 @@ def fromrepr_module(E):
         body.append("    { let mut ok: Vec<String> = Vec::new(); %s" % " ".join(oks))
         body.append('      o.line(&format!("{{\\"op\\":\\"reprrt\\",\\"def\\":%d,\\"ok\\":{}}}", jlist(&ok))); }' % did)
     src += "\n".join(body) + "\n}\n"
+    if E.get("in_fn"):
+        # the same program with the enum declared INSIDE the function that uses it: its discriminants name a function-local
+        # constant BASE (= 5), while the module has another item of that name (= 9) that the enum does not mean
+        head = SG.HEADER + base_const(E)
+        i = src.index(IG.RUN)
+        items, body_txt = src[len(head):i], src[i + len(IG.RUN):]
+        src = (SG.HEADER + "pub const BASE: %s = 9;\n" % R + IG.RUN + "    const BASE: %s = 5;\n" % R +
+               "\n".join("    " + l for l in items.splitlines()) + "\n" + body_txt)
     return src
 
 
@@ -267,7 +275,8 @@ def disc_module(E):
         items.append("derive(Default)")
     items += E.get("dpass", [])
     if E["dder"]:
-        items.append("derive(strum::EnumIter, strum::EnumString, strum::Display, strum::EnumCount, Hash)")
+        # (every third time the generated enum derives EnumDiscriminants itself: a second expansion of the same derive)
+        items.append("derive(strum::EnumIter, strum::EnumString, strum::Display, strum::EnumCount, Hash%s)" % (", strum::EnumDiscriminants" if E["id"] % 3 == 0 else ""))
         if E["dstyle"] != "none":
             items.append('strum(serialize_all = "%s")' % E["dstyle"])
     attrs = []
